@@ -81,6 +81,7 @@ func (e *Executor) Checkpoint(dbPath string, wals []string) (int, error) {
 		if err := db.CheckpointRemove(dbPath); err != nil {
 			return 0, fmt.Errorf("checkpoint leftover WAL: %w", err)
 		}
+		vhook.Crash("ckptwal.leftover")
 	}
 
 	existingWals := []string{}
@@ -102,9 +103,11 @@ func (e *Executor) Checkpoint(dbPath string, wals []string) (int, error) {
 		if err := os.Rename(wal, walPath); err != nil {
 			return 0, fmt.Errorf("moving WAL %s: %w", wal, err)
 		}
+		vhook.Crash("ckptwal.renamed")
 		if err := db.CheckpointRemove(dbPath); err != nil {
 			return 0, fmt.Errorf("checkpointing WAL: %w", err)
 		}
+		vhook.Crash("ckptwal.done")
 	}
 	return n, nil
 }
